@@ -76,6 +76,11 @@ func NewTask(workflow *Workflow, process *Process, name string, cmdPat string, i
 		}
 		t.OutIPs[oname] = oip
 	}
+	// Out-IPs need to know the temporary execution directory of the task, in
+	// order for oip.Write() to write there instead of to the final path
+	for _, oip := range t.OutIPs {
+		oip.tempExecDir = t.TempDir()
+	}
 	t.Command = t.formatCommand(cmdPat, portInfos, inIPs, t.subStreamIPs, t.OutIPs, params, tags, prepend)
 	return t
 }
